@@ -11,8 +11,9 @@ TRUSTED = [
     "the compiled driver on every run; the two evaluations are compared",
     "Hasse's theorem itself (|#E - p - 1| <= 2 sqrt p) is a hypothesis of the reading 'h*r is the curve order': it is not in Mathlib",
 ]
-ASSUMPTIONS = ["endomorphism / GLV constants, twist generators and Frobenius constants (derived at run time by the library) are not yet part of the "
-               "extracted table; they are exercised by C03's GLV multiplications only"]
+ASSUMPTIONS = ["GLV constants (beta, lattice basis) are derived at run time: checked through their defining equations on the values the library "
+               "reports (beta^3 = 1, psi(G) on the curve, k*G = k0*G + k1*psi(G) with short k0, k1), not extracted as a table; twist generators and "
+               "Frobenius constants are not covered yet"]
 RULE = "every parameter identifier the library accepts in the configuration (probed by id 0..200); non-trivial = an identifier the library accepts"
 
 
@@ -21,8 +22,15 @@ def streams(ctx, scale=1):
     lines = ["cfg"]
     # probe every identifier: accepted ones must be in the extracted table and agree with it (the driver checks), and every table
     # entry must be accepted
+    rng = ctx.rng
     for cid in range(0, 120):
         lines.append("ep_param %d" % cid)
+        # endomorphism / lattice constants derived at installation: the decomposition they produce is checked on scalars of every shape
+        # (the op answers "no-endom" / is skipped by the oracle on curves without endomorphism or unknown identifiers)
+        if cid in c03.CURVES["base"]:
+            n = 1 << 256
+            for k in [0, 1, 2, (1 << 128) - 1, 1 << 128, (1 << 255), (1 << 256) - 1] + [rng.bits(256) for _ in range(12 if ctx.tier == "quick" else 300)]:
+                lines.append("ep_glv %x" % k)
     return [{"name": "params-base", "cfg": "base", "exe": exe, "lines": lines}]
 
 
